@@ -5,7 +5,7 @@ LEVEL = "model_checking"
 TECHNIQUE = "CBMC bounded symbolic execution of arena.c growth/fix-up as an inductive step (arbitrary small arena, always-moving realloc) and of compile-time units under capacity 1"
 ASSUMPTIONS = [
     "yr_realloc always moves (malloc+copy+free) and hands out 64-byte objects; the arena is kept below that",
-    "initial capacity 1..16, existing region 16..24 bytes, growth 1..16 bytes: every position of a growth relative to the data",
+    "initial capacity 1..16, existing region 16..24 bytes, growth 1..16 bytes: every position of a growth relative to the data", "H2: one compile-time unit (yr_ac_add_string) with the match pool at capacity 1; parser.c/grammar.y units that hold raw pointers across allocations are not covered",
 ]
 LEVEL_TEXT = ("One inductive step of the growth mechanism from an arbitrary small arena state covers histories of any length; "
               "stale raw pointers in compile-time units are caught as use-after-free because every allocation relocates.")
@@ -17,4 +17,7 @@ def harnesses(ctx, tier):
                     unwind_funcs={"_yr_arena_allocate_memory": 8, "yr_arena_ptr_to_ref": 4, "yr_arena_release": 4},
                     desc="yr_arena_allocate_memory/zeroed/write_data growth step with always-moving realloc, registered pointers inside and outside the moved buffer",
                     bounds="capacity 1..16, region 16..24 B, growth 1..16 B, 2 buffers, 2 optional relocs",
-                    functions=["_yr_arena_allocate_memory", "yr_arena_allocate_memory", "yr_arena_allocate_zeroed_memory", "yr_arena_write_data", "yr_arena_make_ptr_relocatable", "yr_arena_get_ptr"])]
+                    functions=["_yr_arena_allocate_memory", "yr_arena_allocate_memory", "yr_arena_allocate_zeroed_memory", "yr_arena_write_data", "yr_arena_make_ptr_relocatable", "yr_arena_get_ptr"]),
+            Harness(name="H2_ac_add_string_relocating", src="c19/ac_add.c", unwind=6, timeout=600, unwind_funcs={"_yr_arena_allocate_memory": 8, "_yr_arena_make_ptr_relocatable": 6, "yr_arena_ptr_to_ref": 14, "memcmp": 10},
+                    desc="yr_ac_add_string for two strings sharing an atom, match pool capacity 1, always-moving realloc: match list resolved after growth",
+                    bounds="atom 1..2 symbolic bytes, 2 strings", functions=["yr_ac_add_string", "_yr_ac_state_create", "yr_arena_allocate_struct"])]
